@@ -133,7 +133,7 @@ theorem editAt_kid {f : Forest} {n : Nat} {c : Ctx} (g : List HTree → List HTr
   rfl
 
 /-- Splicing out leading leaves of `n`'s child list one by one. -/
-theorem foldl_spliceOut_leaves {n : Nat} {vn : Value} {R : List HTree} : ∀ (A : List HTree) (g : Forest),
+theorem fs_foldl_spliceOut_leaves {n : Nat} {vn : Value} {R : List HTree} : ∀ (A : List HTree) (g : Forest),
     (∀ k ∈ A, k.kids = []) → SiteAt g n vn (A ++ R) →
     A.foldl (fun acc k => acc.spliceOut k.handle) g = g.editAt (some n) (fun _ => R)
   | [], g => by
@@ -153,7 +153,7 @@ theorem foldl_spliceOut_leaves {n : Nat} {vn : Value} {R : List HTree} : ∀ (A 
     have s1 : SiteAt (g.editAt (some n) (dropTop a.handle)) n vn (A ++ R) := by
       have := s'.edit (dropTop a.handle) (handlesList_dropTop_sublist _ _)
       rw [hd] at this; exact this
-    rw [hsp, foldl_spliceOut_leaves A _ (fun k hk => hl k (List.mem_cons_of_mem _ hk)) s1,
+    rw [hsp, fs_foldl_spliceOut_leaves A _ (fun k hk => hl k (List.mem_cons_of_mem _ hk)) s1,
       Forest.editAt_editAt]
     exact s'.congr rfl
 
@@ -177,7 +177,7 @@ theorem removeElement_site {f : Forest} {p n : Nat} {v vn : Value} {l K r : List
     unfold Forest.removeElement
     rw [hgn]
     simp only [HTree.kids]
-    exact congrArg (fun z => Forest.spliceOut z n) (foldl_spliceOut_leaves _ f hleaf sn)
+    exact congrArg (fun z => Forest.spliceOut z n) (fs_foldl_spliceOut_leaves _ f hleaf sn)
   let g1 : List HTree → List HTree := replaceTop n (fun k => [kidsFn (fun _ => K.dropWhile abn) k])
   have hg1 : g1 (l ++ .node n vn K :: r) = l ++ .node n vn (K.dropWhile abn) :: r := by
     simp only [g1]
